@@ -234,9 +234,13 @@ Fixpoint cread (lim : option Z) (zl tl : Z) (chs : list chunk) (opened : bool) (
       else match adv lim pos zl with
            | None => (RcErr, mkSst false 0 0 [] false (adv_most lim pos zl) t false (Some RcErr))
            | Some p1 =>
-               (* ReadTrailer: io.EOF is not an error here; a trailer section that is cut off is only peeked at,
-                  its bytes stay in the reader *)
-               (RcEof, mkSst false 0 0 [] false (match adv lim p1 tl with Some p2 => p2 | None => p1 end) t true None)
+               (* ReadTrailer: only peeks until the section is complete.  Nothing at all there: io.EOF, which is not
+                  an error here.  The input ends inside the section: io.ErrUnexpectedEOF, kept in rs.err *)
+               match adv lim p1 tl with
+               | Some p2 => (RcEof, mkSst false 0 0 [] false p2 t true None)
+               | None => if at_end lim p1 then (RcEof, mkSst false 0 0 [] false p1 t true None)
+                         else (RcErr, mkSst false 0 0 [] false p1 t false (Some RcErr))
+               end
            end
   | c :: chs' =>
       if negb opened && at_end lim pos then (RcEof, mkSst false 0 0 chs false pos t false (Some RcEof))   (* readHexInt: io.EOF *)
